@@ -247,6 +247,21 @@ def r_literals(prog, tier):
                           '%s are in %s but not in %s: punctuation_symetrify still treats them as paired punctuation while '
                           'punctuation_verylow / punctuation_root / punctuation_delete no longer see punctuation in them'
                           % (missing[:6], small, big), construct='lit-nest:%s:%s' % (small, big)))
+    # parents are looked up by their lower-cased category: a key that is not lower-case can never be found
+    for tn in ('HEAD_RULES_PTB', 'HEAD_RULES_NEGRA'):
+        try:
+            tv = prog.const_value('transformconst', tn)
+        except (Unrecognised, AnalysisError, Exception):
+            tv = None
+        if isinstance(tv, dict):
+            badk = sorted(str(k) for k in tv if not (isinstance(k, str) and k == k.lower()))
+            obs.append(Ob('R-LITERALS', 'transformconst.' + tn, 'every key of %s is a lower-case category' % tn, not badk,
+                          '%d keys' % len(tv) if not badk else 'key(s) %s are not lower-case: get_headpos_by_rule looks the parent up by '
+                          '`parent_label.lower()` and never finds them - such constituents get the default head' % badk[:4],
+                          construct='lit-lowerkeys:' + tn))
+        else:
+            obs.append(Ob('R-LITERALS', 'transformconst.' + tn, 'every key of %s is a lower-case category' % tn, None,
+                          'the table is not built from literals this rule can evaluate', construct='lit-lowerkeys:' + tn))
     # the bracket names tell the brackets apart: `-NAME-` stands for NAME, and two different characters never share a name
     try:
         br = dict((nm, prog.const_value('trees', nm)) for nm in ('OPENING_BRACKETS', 'CLOSING_BRACKETS'))
@@ -704,6 +719,39 @@ def r_leafguard(prog, tier):
                               'the label is cut at the %s `+` and the loop goes on with the %s part (`%s`), which holds no `+` any more: '
                               'of A+B+C the new node keeps `A+B` for good - only the lowest label of a longer chain is restored'
                               % (how, side, unparse(m.ast)[:50]), construct='uncollapse-side', line=m.lineno))
+    # the public wrappers hand EVERY tree to their worker: a return that can be reached around the call leaves such trees as
+    # they came (a one-token sentence is a chain like any other)
+    for (pub_, worker_) in (('collapse_unary_chains', '_collapse_unary_chains'), ('uncollapse_unary_chains', '_uncollapse_unary_chains'),
+                            ('binarize', '_binarize_tree')):
+        g_ = prog.func('transform', pub_, required=False)
+        try:
+            w_ = prog.func('transform', worker_)
+        except Unrecognised:
+            w_ = None
+        if g_ is None or w_ is None:
+            continue
+        gc_ = g_.cfg
+        calls_ = frozenset(m_.id for m_ in gc_.eval_nodes() for r_ in gc_.exprs(m_.id) for x_ in ast.walk(r_)
+                           if isinstance(x_, ast.Call) and prog.callee(x_, g_) == ('transform', w_.qual))
+        if not calls_:
+            continue
+        rets_ = [p_ for p_ in gc_.pred[gc_.exit] if gc_.nodes[p_].kind == 'stmt' and isinstance(gc_.nodes[p_].ast, ast.Return)]
+        around = [p_ for p_ in rets_ if p_ in gc_.reach(gc_.entry, avoid=calls_)]
+        # only a return of its own, inside an `if`: the way "around" a call that sits in a loop (`agenda = [tree]; while
+        # agenda: ...`) is the loop that does not run even once, which cannot happen there
+        around = [p_ for p_ in around if gc_.nodes[p_].ast not in g_.node.body and not any(
+            isinstance(getattr(a_, 'owner', None), (ast.While, ast.For)) for a_ in gc_.assumes_at(p_))]
+        n += 1
+        if around and not prog.opaque_calls(g_, [g_.params[0]], before=around[0]):
+            nd_ = gc_.nodes[around[0]]
+            obs.append(Ob('R-LEAFGUARD', g_.fq, 'every tree is handed to %s' % w_.qual, False,
+                          '`%s` (line %d, under %s) is reached without %s ever being called: such a tree comes back as it was'
+                          % (unparse(nd_.ast), nd_.lineno, [('' if a_.pol else 'not ') + unparse(a_.ast)[:40] for a_ in gc_.assumes_at(nd_.id)],
+                             w_.qual), construct='wrapper-always:' + pub_, line=nd_.lineno))
+        else:
+            obs.append(Ob('R-LEAFGUARD', g_.fq, 'every tree is handed to %s' % w_.qual, True if not around else None,
+                          'no return comes before the call' if not around else 'a helper sees the tree first',
+                          construct='wrapper-always:' + pub_, line=g_.node.lineno, nontrivial=False))
     # the in-order oracle closes every node exactly once: PJ-<label> and REDUCE are emitted outside every loop
     try:
         f = prog.func('transitions', '_inorder')
